@@ -8,6 +8,12 @@
 //!         more calls succeed than the input has bytes.
 //!
 //! Oracle (from the property text): no call may panic, and the consumer must terminate.
+//!
+//! Alternative entry points (`c14::alt`, on the cases whose line hash is even, same chunk schedule):
+//! `Reader::new` instead of the free `read`; every call of `next` through an `Iterator` adaptor;
+//! `collect::<Result<Vec<_>, _>>()` terminates with the first error of the main route (or as many
+//! records); `size_hint()`; the accessors / conversions of the records read before the first error.
+//! None of them may panic, and each must answer like the main route.
 use crate::c14::*;
 use crate::out::*;
 use crate::rng::Rng;
@@ -336,7 +342,10 @@ pub fn exec(line: &str) -> (String, Option<Result<(), String>>, bool) {
         Ok(())
     };
     let nontrivial = c.data.is_empty() || ans.contains("err") || ans.contains("panic");
-    (ans, Some(o), nontrivial)
+    // the alternative entry points under the same chunk schedule (c14::alt)
+    let (o, alt_run) = with_alt(line, &c, &ans, Some(o), false, EXTRA, false);
+    ALT_RUN.store(alt_run, std::sync::atomic::Ordering::Relaxed);
+    (ans, o, nontrivial)
 }
 
 pub fn run(cfg: &Cfg) {
@@ -351,6 +360,9 @@ pub fn run(cfg: &Cfg) {
         }
         if ans.contains("panic") {
             out.panics += 1;
+        }
+        if ALT_RUN.load(std::sync::atomic::Ordering::Relaxed) {
+            out.stat("alternative-entry-points");
         }
         out.case(c, &ans, o, nt);
     }
